@@ -169,6 +169,11 @@ func checkC08(c *Ctx) {
 		ncore = 2000
 	}
 	checkCore(c, ncore, 8)
+	if c.Thorough() {
+		checkLongHistories(c, []int{1000, 400000})
+	} else {
+		checkLongHistories(c, []int{320000})
+	}
 
 	// an extra on top of TLC (no verdict depends on it): Apalache proves the frame discipline of the
 	// abstraction JqFramesInd, which JqEval refines (PROPERTY RefinesFrames above), for EVERY call-depth limit
